@@ -29,7 +29,12 @@ type Search struct {
 }
 
 func newSearch(db *DB, o Object, f []*indexedField, err error) *Search {
-	return &Search{db: db, object: o, fields: f, limit: math.MaxUint, err: err}
+	// search results must not alias the index (f is often a sub-slice of it),
+	// otherwise Or appends into the index and later insertions/deletions
+	// shift what the search denotes
+	fields := make([]*indexedField, len(f))
+	copy(fields, f)
+	return &Search{db: db, object: o, fields: fields, limit: math.MaxUint, err: err}
 }
 
 // ExpectsZeroOrN checks that the number of results is the one expected or zero.
